@@ -2,10 +2,15 @@
    reader on the cases the harness ran against the real ioDecReader and the real
    bytesDecReader (through verif_hooks_c03.go) and report the ids that differ. *)
 From Coq Require Import List NArith ZArith Arith Bool.
-From Verif Require Import Gen.Consts C03.Model.
+From Verif Require Import Gen.Consts C03.Model C03.ModelR.
 Import ListNotations.
 
-Record case := mkcase {
+(* A case is one SEGMENT of a reader's life: resetIO (from a buffer of capacity
+   [c_prevcap]; 0 = a new reader) onto a scripted reader, then an operation list.
+   The segments after the first are written by the harness's reset stream with the
+   capacity observed just before the reset (ModelR.resetIO depends on nothing else
+   of the previous state, as the code does). *)
+Record case := mkrcase {
   cid : N;
   c_bufsize : nat;
   c_maxinit : nat;
@@ -14,9 +19,14 @@ Record case := mkcase {
   c_script : list resp;
   c_fin : ek;                  (* KEof or KHard *)
   c_ops : list rop;
+  c_prevcap : nat;             (* cap(z.buf) just before resetIO; 0 for a new reader *)
   o_cap : nat;                 (* cap(z.buf) observed after resetIO *)
   o_io : list ev;              (* observed on the real ioDecReader, one per op up to the first error *)
   o_bytes : list tr }.         (* observed on the real bytesDecReader over c_data *)
+
+(* a first segment (new reader): the case format of the unit stream *)
+Definition mkcase (i : N) (b m : nat) (r : bool) (d : list N) (sc : list resp) (f : ek) (ops : list rop)
+  (ocap : nat) (io : list ev) (bs : list tr) : case := mkrcase i b m r d sc f ops 0 ocap io bs.
 
 Fixpoint eqbl (a b : list N) : bool :=
   match a, b with
@@ -51,7 +61,7 @@ Definition case_cfg (c : case) : cfg := mkcfg (c_bufsize c) (c_maxinit c) (c_rbr
 
 Definition check_case (c : case) : bool :=
   let g := case_cfg c in
-  let s0 := init g (c_data c) (c_script c) (c_fin c) in
+  let s0 := resetIO g (st0 (c_prevcap c)) (c_data c) (c_script c) (c_fin c) in   (* = init when c_prevcap = 0 (ProofsR.init_is_reset) *)
   Nat.eqb (bcap s0) (o_cap c)
   && all2 ev_eqb (run_io g s0 (c_ops c)) (o_io c)
   && all2 tr_eqb (run_spec (sinit (c_data c)) (c_ops c)) (o_bytes c).
